@@ -2,6 +2,8 @@ package c06
 
 import (
 	"context"
+	"math/rand"
+	"syscall"
 	"errors"
 	"fmt"
 	"net"
@@ -13,7 +15,12 @@ import (
 	"github.com/rs/zerolog"
 	"go.uber.org/fx"
 
+	apic "github.com/sergeii/swat4master/cmd/swat4master/components/api"
 	browserc "github.com/sergeii/swat4master/cmd/swat4master/components/browser"
+	"github.com/sergeii/swat4master/cmd/swat4master/container"
+	"github.com/sergeii/swat4master/internal/core/entities/details"
+	ds "github.com/sergeii/swat4master/internal/core/entities/discovery/status"
+	"github.com/sergeii/swat4master/internal/core/entities/server"
 	"github.com/sergeii/swat4master/internal/core/usecases/listservers"
 	"github.com/sergeii/swat4master/internal/metrics"
 	"github.com/sergeii/swat4master/internal/settings"
@@ -139,4 +146,205 @@ func runComponentTCPOnce(k int, kind string, payload []byte) []string {
 	default:
 		return []string{fmt.Sprintf("reply:%d", len(reply)), state}
 	}
+}
+
+// runStall <servers> <hostname bytes>: a client that asks for a very long list and then does not read.  The real browser
+// component must not wait for it beyond the client timeout: the TCP server arms one deadline per accepted connection,
+// and the reply write has to give up when it passes (the handler goroutine, the packed reply and the descriptor are
+// released).  A first client reads normally (F = size of the whole reply); a second one, with a small receive buffer,
+// sends the same request, sleeps well past the client timeout and only then reads what it can get (S bytes).  S = F
+// means the server kept writing for as long as the peer stalled.  Output: `stall:<S>:<F>`.
+// stallTimeout: the client timeout of the stall cases: long enough to list, pack, encrypt and copy the whole reply over loopback
+const stallTimeout = 2 * time.Second
+
+func runStall(args []string) []string {
+	if len(args) != 2 {
+		return []string{"bad-op"}
+	}
+	n, err1 := strconv.Atoi(args[0])
+	hl, err2 := strconv.Atoi(args[1])
+	if err1 != nil || err2 != nil || n < 1 || hl < 1 {
+		return []string{"bad-op"}
+	}
+	w, release := reputil.FreshWorld()
+	defer release()
+	p := w.NewProc()
+	ctx := context.Background()
+	host := strings.Repeat("H", hl)
+	for i := 0; i < n; i++ {
+		svr := server.MustNew(net.IPv4(10, 1, byte(i/256), byte(i%256)), 10480, 10481)
+		svr.UpdateInfo(details.MustNewInfoFromParams(map[string]string{"hostname": host, "hostport": "10480", "gamevariant": "SWAT 4", "gamever": "1.1",
+			"gametype": "CO-OP", "mapname": "M"}))
+		svr.Refresh(w.Clock.Now())
+		svr.UpdateDiscoveryStatus(ds.Master | ds.Info)
+		if _, err := p.Repos.Servers.Add(ctx, svr, func(*server.Server) bool { return false }); err != nil {
+			return []string{"setup-failed"}
+		}
+	}
+	l, err := net.ListenTCP("tcp4", &net.TCPAddr{IP: net.IPv4(127, 0, 0, 1)})
+	if err != nil {
+		return []string{"infra:port"}
+	}
+	port := l.Addr().(*net.TCPAddr).Port
+	l.Close()
+	app := fx.New(
+		fx.NopLogger,
+		fx.Supply(browserc.Config{ListenAddr: "127.0.0.1:" + strconv.Itoa(port), ClientTimeout: stallTimeout}),
+		fx.Supply(settings.Settings{ServerLiveness: w.Opts.Liveness}),
+		fx.Provide(
+			func() *zerolog.Logger { return p.Logger },
+			func() *metrics.Collector { return p.Metrics },
+			func() clockwork.Clock { return w.Clock },
+			func() listservers.UseCase { return p.UC.ListServers },
+		),
+		browserc.Module,
+		fx.Invoke(func(*browserc.Component) {}),
+	)
+	if err := app.Err(); err != nil {
+		return []string{"wiring-error:" + strings.ReplaceAll(err.Error(), " ", "_")}
+	}
+	sctx, cancel := context.WithTimeout(ctx, 10*time.Second)
+	defer cancel()
+	if err := app.Start(sctx); err != nil {
+		return []string{"infra:start"}
+	}
+	defer func() { _ = app.Stop(context.Background()) }()
+	fields := make([]string, 20)
+	for i := range fields {
+		fields[i] = "hostname"
+	}
+	req := BrowserRequest(rand.New(rand.NewSource(1)), "", fields, []byte{0, 0, 0, 0})
+	target := fmt.Sprintf("127.0.0.1:%d", port)
+	readAll := func(c net.Conn, limit time.Duration) int {
+		total := 0
+		buf := make([]byte, 1<<20)
+		_ = c.SetReadDeadline(time.Now().Add(limit))
+		for {
+			k, err := c.Read(buf)
+			total += k
+			if err != nil {
+				return total
+			}
+		}
+	}
+	// 1. a client that reads at once: the whole reply.  (The server's single deadline also bounds this transfer: the
+	// client timeout is generous enough for a loopback copy.)
+	c1, err := net.DialTimeout("tcp4", target, 2*time.Second)
+	if err != nil {
+		return []string{"infra:dial"}
+	}
+	if _, err := c1.Write(req); err != nil {
+		return []string{"infra:write"}
+	}
+	full := readAll(c1, 10*time.Second)
+	c1.Close()
+	// 2. a client with a small receive buffer that stalls
+	d := net.Dialer{Timeout: 2 * time.Second, Control: func(_, _ string, rc syscall.RawConn) error {
+		return rc.Control(func(fd uintptr) { _ = syscall.SetsockoptInt(int(fd), syscall.SOL_SOCKET, syscall.SO_RCVBUF, 65536) })
+	}}
+	c2, err := d.Dial("tcp4", target)
+	if err != nil {
+		return []string{"infra:dial"}
+	}
+	defer c2.Close()
+	if _, err := c2.Write(req); err != nil {
+		return []string{"infra:write"}
+	}
+	time.Sleep(stallTimeout + 1200*time.Millisecond)
+	got := readAll(c2, 5*time.Second)
+	return []string{fmt.Sprintf("stall:%d:%d", got, full)}
+}
+
+// runStallHTTP <servers> <hostname bytes>: the same for the REST port, through the REAL API component
+// (cmd/swat4master/components/api: gin router + pkg/http/httpserver with the configured read / write timeouts):
+// `GET /api/servers` with a body far larger than the socket buffers, to a client that reads (F bytes) and to one that
+// stalls past the write timeout (S bytes).  Output: `stall:<S>:<F>`.
+func runStallHTTP(args []string) []string {
+	if len(args) != 2 {
+		return []string{"bad-op"}
+	}
+	n, err1 := strconv.Atoi(args[0])
+	hl, err2 := strconv.Atoi(args[1])
+	if err1 != nil || err2 != nil || n < 1 || hl < 1 {
+		return []string{"bad-op"}
+	}
+	w, release := reputil.FreshWorld()
+	defer release()
+	p := w.NewProc()
+	ctx := context.Background()
+	host := strings.Repeat("H", hl)
+	for i := 0; i < n; i++ {
+		svr := server.MustNew(net.IPv4(10, 1, byte(i/256), byte(i%256)), 10480, 10481)
+		svr.UpdateInfo(details.MustNewInfoFromParams(map[string]string{"hostname": host, "hostport": "10480", "gamevariant": "SWAT 4", "gamever": "1.1",
+			"gametype": "CO-OP", "mapname": "M"}))
+		svr.Refresh(w.Clock.Now())
+		svr.UpdateDiscoveryStatus(ds.Master | ds.Info)
+		if _, err := p.Repos.Servers.Add(ctx, svr, func(*server.Server) bool { return false }); err != nil {
+			return []string{"setup-failed"}
+		}
+	}
+	l, err := net.ListenTCP("tcp4", &net.TCPAddr{IP: net.IPv4(127, 0, 0, 1)})
+	if err != nil {
+		return []string{"infra:port"}
+	}
+	port := l.Addr().(*net.TCPAddr).Port
+	l.Close()
+	const writeTimeout = 2 * time.Second
+	app := fx.New(
+		fx.NopLogger,
+		fx.Supply(apic.Config{HTTPListenAddr: "127.0.0.1:" + strconv.Itoa(port), HTTPReadTimeout: 2 * time.Second, HTTPWriteTimeout: writeTimeout, HTTPShutdownTimeout: time.Second}),
+		fx.Supply(settings.Settings{ServerLiveness: w.Opts.Liveness}),
+		fx.Provide(
+			func() *zerolog.Logger { return p.Logger },
+			func() container.Container { return p.UC },
+		),
+		apic.Module,
+		fx.Invoke(func(*apic.Component) {}),
+	)
+	if err := app.Err(); err != nil {
+		return []string{"wiring-error:" + strings.ReplaceAll(err.Error(), " ", "_")}
+	}
+	sctx, cancel := context.WithTimeout(ctx, 10*time.Second)
+	defer cancel()
+	if err := app.Start(sctx); err != nil {
+		return []string{"infra:start"}
+	}
+	defer func() { _ = app.Stop(context.Background()) }()
+	req := []byte("GET /api/servers HTTP/1.1\r\nHost: verif\r\nConnection: close\r\n\r\n")
+	target := fmt.Sprintf("127.0.0.1:%d", port)
+	readAll := func(c net.Conn, limit time.Duration) int {
+		total := 0
+		buf := make([]byte, 1<<20)
+		_ = c.SetReadDeadline(time.Now().Add(limit))
+		for {
+			k, err := c.Read(buf)
+			total += k
+			if err != nil {
+				return total
+			}
+		}
+	}
+	c1, err := net.DialTimeout("tcp4", target, 2*time.Second)
+	if err != nil {
+		return []string{"infra:dial"}
+	}
+	if _, err := c1.Write(req); err != nil {
+		return []string{"infra:write"}
+	}
+	full := readAll(c1, 10*time.Second)
+	c1.Close()
+	d := net.Dialer{Timeout: 2 * time.Second, Control: func(_, _ string, rc syscall.RawConn) error {
+		return rc.Control(func(fd uintptr) { _ = syscall.SetsockoptInt(int(fd), syscall.SOL_SOCKET, syscall.SO_RCVBUF, 65536) })
+	}}
+	c2, err := d.Dial("tcp4", target)
+	if err != nil {
+		return []string{"infra:dial"}
+	}
+	defer c2.Close()
+	if _, err := c2.Write(req); err != nil {
+		return []string{"infra:write"}
+	}
+	time.Sleep(writeTimeout + 1200*time.Millisecond)
+	got := readAll(c2, 5*time.Second)
+	return []string{fmt.Sprintf("stall:%d:%d", got, full)}
 }
